@@ -14,6 +14,14 @@ CHECKS = {
    "explicit-state BFS to closure over the real RWMutex (private-state key) vs POSIX one-byte model; exhaustive blocking-variant matrix on the synctest fake clock",
    "Every operation from every reachable state of one real RWMutex with four guards is executed and compared with the reader/writer rules (20 states x 20 operations, closure reached); blocking Lock/RLock are decided for every holder/waiter/event/timing combination on a fake clock. Complete for the stated alphabet, which is the property's own quantifier.",
    "Trusted: Go runtime, testing/synctest fake clock. Data races are only covered by the auxiliary free-running -race pass.", "§4 C12"),
+ "C02": ("model_checking", "E1-programs",
+   "exhaustive enumeration of rollback-journal pager programs executed on the real store through the FUSE handlers; every LTX decoded and applied to a reference image",
+   "All single-transaction pager programs of the enumerated shape space (modified set x new size x spill points x sync mode x finalisation x outcome) from seven start sizes straddling the 256-page checksum blocks, and all chains of two (thorough: three) over a core of shapes, are executed; after each the position delta, the decoded LTX applied to the previous reference image, pre/post checksums, the tx event, the -pos file, the image read back through a page cache and the C04/C09 monitors are checked.",
+   "SQLite is played by the pager simulator (file-operation level model of the unix VFS + pager); the kernel by the page-cache/lock-owner simulator. ltx module trusted for LTX framing. Lock-page geometry not enumerated.", "§4 C02"),
+ "C03": ("model_checking", "E1-programs",
+   "exhaustive enumeration of WAL pager programs (transactions, rollbacks, checkpoints of every mode, LiteFS recovery) up to depth 3/4 on the real store; every LTX decoded and applied to a reference image",
+   "All WAL programs up to the stated depth over write transactions (repeated pages, split frame writes, rollbacks later overwritten, lock-only, growth, shrink incl. across a checksum block), SQLite checkpoints (PASSIVE, partial, FULL, RESTART, TRUNCATE) and LiteFS recovery are executed from several (page size, start size) points; at each write-lock release TXID advances iff a committed transaction was appended, and the LTX (pages, commit size, WAL offset/size/salts) reproduces exactly the image the simulator's SQLite sees.",
+   "WAL module and wal-index header handling are simulated (verif/pager/wal.go); both checksum byte orders; single writer + separate checkpointer connection (no concurrency here: see C10/C11).", "§4 C03"),
 }
 
 NOT_YET = {}
